@@ -31,7 +31,7 @@ RULE = (
 ASSUMPTIONS = ["regex layers are anchored alternations of module names so that the model's re.match expansion is unambiguous"]
 SHARD_TIMEOUT = {"quick": 900, "thorough": 3000}
 
-TOP = ["r.a", "r.b", "r.c", "r.d", "r.e", "r.f", "r.ab", "r.a_b"]
+TOP = ["r.a", "r.b", "r.c", "r.d", "r.e", "r.f", "r.ab", "r.a_b", "r.a-b", "r.größe"]  # "-" sorts below ".", "ö" above every ASCII character
 SUBS = ["r.a.x", "r.a.y", "r.b.x", "r.b.y", "r.c.z", "r.c.a", "r.f.q", "r.f.q.w", "r.ab.x", "r.d.k", "r.d.m"]
 ACC = {
     ("import", False): "access_layers_that",
@@ -159,6 +159,11 @@ def run_shard(spec, acc):
                     imps = sorted(set(imps) | set(rnd.sample(extra, rnd.randint(1, 3))))
                     acc.count("forced_nested_list_with_later_sibling")
                     break
+        if rnd.random() < 0.1:
+            # a regex-defined layer that the rule does not mention and that matches no module of this architecture
+            layers["LZ"] = ["r.no_such_module_zz"]
+            kinds["LZ"] = "regex"
+            acc.count("forced_unmentioned_regex_layer_without_match")
         for name in layers:
             acc.hist("layer_kind", kinds[name])
         cfg = {"verb": verb, "dir": d, "exc": exc, "anything": anything, "subject": subject, "objects": objects}
@@ -185,7 +190,7 @@ def floors(acc, tier):
         for o in ("pass", "fail"):
             if h.get(f"{s}:{o}", 0) == 0:
                 why.append(f"shape {s} never observed with outcome {o}")
-    for c in ("forced_intra_layer_only", "forced_unmentioned_regex_layer", "forced_mixed_object_layers", "forced_nested_list_with_later_sibling"):
+    for c in ("forced_intra_layer_only", "forced_unmentioned_regex_layer", "forced_mixed_object_layers", "forced_nested_list_with_later_sibling", "forced_unmentioned_regex_layer_without_match"):
         if acc.counters[c] < 50:
             why.append(f"{c}: only {acc.counters[c]}")
     if acc.counters["c05_judged_nested_layer_lists"] < 200:
